@@ -376,6 +376,37 @@ func (fv *FV) verifyLitBody(res *FuncResult, fd *ast.FuncDecl, lit *ast.FuncLit)
 		}
 		return true
 	})
+	// parameters and receiver of the enclosing function are in scope of the contract even if the literal does not use them
+	bindOuter := func(id *ast.Ident) {
+		if id == nil || id.Name == "_" {
+			return
+		}
+		v, ok := fv.info.Defs[id].(*types.Var)
+		if !ok {
+			return
+		}
+		if _, has := st.vars[v]; has {
+			return
+		}
+		sym := fv.fresh(v.Name(), fv.ss.Of(v.Type()))
+		st.vars[v] = sym
+		if _, shadow := fv.specParam[v.Name()]; !shadow {
+			fv.entryVars[v.Name()] = sym
+			fv.specParam[v.Name()] = v
+		}
+	}
+	if fd.Recv != nil {
+		for _, f := range fd.Recv.List {
+			for _, n := range f.Names {
+				bindOuter(n)
+			}
+		}
+	}
+	for _, f := range fd.Type.Params.List {
+		for _, n := range f.Names {
+			bindOuter(n)
+		}
+	}
 	fv.resNames = fc.Results
 	for _, g := range fv.reg.gorder {
 		sym := fv.fresh(g+"_0", fv.reg.ghosts[g].Sort)
